@@ -79,7 +79,16 @@ def step (σ : DSt) (ts : List String) : DSt × String :=
     | none => (σ, "no-instance")
     | some (t, s) => match (methodNames t).idxOf? m with
       | none => (σ, "no-method")
-      | some i => let r := runMethod t s i; (some (t, (r.state?).getD s), showRes t r)
+      | some i =>
+        let r := runMethod t s i
+        -- for a setter: the protocol table `clearsOf` (computed on the all-values state) must be what this call wrote
+        let c := if t.setters.contains i then
+            match r.state? with
+            | some s' => if r.fine && (clearsOf t i).all s'.written.contains && s'.written.all (clearsOf t i).contains
+                then " c=1" else " c=0"
+            | none => " c=0"
+          else ""
+        (some (t, (r.state?).getD s), showRes t r ++ c)
   | ["proto", cls] => (σ, match findTable cls with | none => "no-table" | some t => protoLine t)
   | ["gaps", cls] => (σ, match findTable cls with | none => "no-table" | some t => gapsLine t)
   | "spec" :: mbpp :: k :: rest =>
